@@ -315,6 +315,43 @@ func c12Exec(ctx *core.Ctx, c c12Case) {
 			fail("C12:chunking-not-honoured", fmt.Sprintf("BDAT answered %s", codes(rs)))
 		}
 	}
+	// BINARYMIME is honoured: such a message can only be sent with BDAT (RFC 3030 section 3), and
+	// the restriction does not outlive the transaction
+	if !failed && c.Binary && fresh() {
+		cmd("RSET")
+		if r := cmd("MAIL FROM:<bin@b.test> BODY=BINARYMIME"); r.Code != 250 {
+			fail("C12:enabled-extension-refused:BINARYMIME", fmt.Sprintf("MAIL BODY=BINARYMIME answered %s", r))
+		}
+		cmd("RCPT TO:<c@d.test>")
+		// (whether DATA is refused for such a message is RFC 3030's business, not this property's:
+		// DATA is sent but its outcome is not judged)
+		if r := cmd("DATA"); r.Code == 354 {
+			p.SendStr("x\r\n.\r\n")
+			p.ReadUntilStall()
+			cmd("MAIL FROM:<bin2@b.test> BODY=BINARYMIME")
+			cmd("RCPT TO:<c@d.test>")
+		}
+		if !failed {
+			p.SendStr("BDAT 4 LAST\r\n")
+			p.Send([]byte{0, 255, '\r', 10})
+			rs, _ := p.ReadUntilStall()
+			all = append(all, rs...)
+			if len(rs) == 0 || rs[0].Code != 250 {
+				fail("C12:binarymime-not-honoured", fmt.Sprintf("BDAT for a BINARYMIME message answered %s", codes(rs)))
+			}
+		}
+		if !failed {
+			cmd("MAIL FROM:<plain@b.test>")
+			cmd("RCPT TO:<c@d.test>")
+			if r := cmd("DATA"); r.Code != 354 {
+				fail("C12:binarymime-restriction-leaks", fmt.Sprintf("DATA in the transaction after a BINARYMIME one answered %s", r))
+			} else {
+				p.SendStr("x\r\n.\r\n")
+				rs, _ := p.ReadUntilStall()
+				all = append(all, rs...)
+			}
+		}
+	}
 	// AUTH
 	if !failed && fresh() {
 		before := rig.Log.Len()
